@@ -10,8 +10,9 @@ pub struct Cfg18 {
     pub lpc: Option<u8>,
     pub mid_side: bool,
     pub fast: bool,
-    pub signal: u8,
-    pub frames: usize, // PCM frames (block size 16)
+    pub signal: u32,
+    pub frames: usize, // PCM frames
+    pub block: u16,
 }
 
 pub fn configs18() -> Vec<Cfg18> {
@@ -20,22 +21,62 @@ pub fn configs18() -> Vec<Cfg18> {
         for (ch, variants) in [(1u8, vec![(true, false)]), (2, vec![(true, false), (false, false), (true, true), (false, true)]), (3, vec![(true, false)]), (8, vec![(true, false)])] {
             for (mid_side, fast) in variants {
                 for lpc in [None, Some(2u8)] {
-                    for signal in 0..2u8 {
+                    for signal in 0..2u32 {
                         for frames in [16usize, 37] {
                             if stream_api && frames != 16 {
                                 continue;
                             }
-                            v.push(Cfg18 { name: format!("{}-ch{}-{}{}-lpc{}-sig{}-{}f", if stream_api { "stream" } else { "file" }, ch, if mid_side { "ms" } else { "noms" }, if fast { "-fast" } else { "" }, lpc.unwrap_or(0), signal, frames), stream_api, ch, bps: 16, lpc, mid_side, fast, signal, frames });
+                            v.push(Cfg18 { name: format!("{}-ch{}-{}{}-lpc{}-sig{}-{}f", if stream_api { "stream" } else { "file" }, ch, if mid_side { "ms" } else { "noms" }, if fast { "-fast" } else { "" }, lpc.unwrap_or(0), signal, frames), stream_api, ch, bps: 16, lpc, mid_side, fast, signal, frames, block: 16 });
                         }
                     }
                 }
             }
         }
     }
+    // input sweep on the small configurations (cheap to explore): many signals, so that data-dependent
+    // situations (equal-size candidates, constant / wasted-bit channels, verbatim fallbacks) meet every schedule
+    for (ch, mid_side, fast) in [(1u8, true, false), (2, true, false), (2, false, true), (2, true, true)] {
+        for lpc in [Some(2u8), Some(8)] {
+            // mono has 3 schedules per configuration: sweep far more signals there
+            let n = if ch == 1 { SWEEP_SIGNALS * 25 } else { SWEEP_SIGNALS };
+            for signal in 2..(2 + n) {
+                v.push(Cfg18 { name: format!("sweep-ch{}-{}{}-lpc{}-sig{}", ch, if mid_side { "ms" } else { "noms" }, if fast { "-fast" } else { "" }, lpc.unwrap_or(0), signal), stream_api: false, ch, bps: 16, lpc, mid_side, fast, signal: signal as u32, frames: 16, block: 16 });
+            }
+        }
+    }
+    // realistic block size (576): FIXED and LPC candidates compete closely there, equal-size candidates occur
+    for lpc in [Some(2u8), Some(8)] {
+        for signal in 2..(2 + SWEEP_SIGNALS * 12) {
+            v.push(Cfg18 { name: format!("sweep576-ch1-lpc{}-sig{}", lpc.unwrap_or(0), signal), stream_api: false, ch: 1, bps: 16, lpc, mid_side: true, fast: false, signal: signal as u32, frames: 576, block: 576 });
+        }
+    }
+    for signal in 2..(2 + SWEEP_SIGNALS) {
+        v.push(Cfg18 { name: format!("sweep576-ch2-fast-lpc2-sig{}", signal), stream_api: false, ch: 2, bps: 16, lpc: Some(2), mid_side: false, fast: true, signal: signal as u32, frames: 576, block: 576 });
+    }
     v
 }
 
+pub const SWEEP_SIGNALS: usize = 120;
+
 pub fn pcm18(c: &Cfg18) -> Vec<i32> {
+    if c.signal >= 2 {
+        // deterministic family: ramp slope × triangle × bounded LCG walk at 4 amplitude classes
+        let s = c.signal as u64;
+        let amp: i64 = [1, 30, 1000, 12000][(s % 4) as usize];
+        let slope: i64 = [0, 1, -3, 17, 250][((s / 4) % 5) as usize];
+        let mut state = s.wrapping_mul(0x9E3779B97F4A7C15);
+        let mut acc = vec![0i64; c.ch as usize];
+        return (0..c.frames * c.ch as usize)
+            .map(|k| {
+                let (i, ch) = ((k / c.ch as usize) as i64, k % c.ch as usize);
+                state = state.wrapping_mul(6364136223846793005).wrapping_add(1442695040888963407);
+                let n = ((state >> 33) as i64 % (2 * amp + 1)) - amp;
+                acc[ch] = (acc[ch] + n).clamp(-15000, 15000);
+                let tri = if (i / 5) % 2 == 0 { i % 5 } else { 5 - i % 5 } * (s as i64 % 7);
+                (slope * i + tri * 20 + acc[ch] + ch as i64 * (s as i64 % 3)).clamp(-32768, 32767) as i32
+            })
+            .collect();
+    }
     (0..c.frames * c.ch as usize)
         .map(|k| {
             let (i, ch) = ((k / c.ch as usize) as i64, (k % c.ch as usize) as i64);
@@ -51,7 +92,7 @@ pub fn encode18(c: &Cfg18) -> Result<Vec<u8>, String> {
     use flac_codec::encode::{FlacSampleWriter, FlacStreamWriter, Options};
     let pcm = pcm18(c);
     let o = Options::default()
-        .block_size(16)
+        .block_size(c.block)
         .map_err(|e| format!("{e:?}"))?
         .max_lpc_order(c.lpc)
         .map_err(|e| format!("{e:?}"))?
